@@ -187,7 +187,7 @@ func mustConvert(s *core.Sub, cv *core.Conv, doc []byte) (out []byte, ok bool) {
 var (
 	nestInline = []string{"[§](u)", "![§](u)", "*§*", "**§**", "_§_", "[§][r]", "~~§~~", "<b>§</b>"}
 	nestBlock  = []string{"§", "> §", "- §", "# §", "|§|\n|-|\n", "x[^1]\n\n[^1]: §", "§\n===\n"}
-	nestAtoms  = []string{"a", "[b](c)", "<http://x.y>", "![i](j)", "`k`", "[^1]", "www.a.bc", "a\\\nb"}
+	nestAtoms  = []string{"a", "[b](c)", "<http://x.y>", "![i](j)", "`k`", "[^1]", "www.a.bc", "a\\\nb", "a\nb", "a\n", "\na", "a  \n"}
 )
 
 // NestDocs calls f with every nesting document up to the given inline depth; it returns how many there are.
